@@ -274,6 +274,13 @@ class Ctx:
                 okop = False
             t.check(okop, "C04", "C04.merged_operand_stays_exact", ENGINE, lambda: rp(operand_expected=want), sig)
             t.check(okop, "C19", "C19.qf_merge_operand_unchanged_later", ENGINE, lambda: rp(operand_expected=want), sig)
+            try:      # C14 for the filter that was merged in and lives on: its counter is the size of what it lists
+                cnt_ok = sec.elements_added == len(sec.get_hashes()) == len(want)
+            except _Timeout:
+                raise
+            except Exception:  # noqa
+                cnt_ok = False
+            t.check(cnt_ok, "C14", "C14.count.qf_merged_operand", ENGINE, lambda: rp(operand_expected=want), sig)
         expS = sorted(hval(hb, h) for h in exp["S"])
         es = set(expS)
         # membership of every hash of the universe
@@ -302,7 +309,7 @@ class Ctx:
         if n > 1 << 12:
             if len(expS) >= 2:
                 t.nontriv(hash((c["q"], c["auto"], repr(hist), repr(o))))
-        elif any(qf._is_shifted[i] for i in range(n)):
+        elif hasattr(qf, "_is_shifted") and any(qf._is_shifted[i] for i in range(n)):
             t.nontriv(hash((c["q"], c["auto"], repr(hist), repr(o))))
         if o[0] in ("rem", "rsz", "mrg"):
             if t.focus == "C14":
